@@ -158,7 +158,7 @@ func init() {
 				n = 1500
 			}
 			for i := 0; i < n; i++ {
-				c := mixedDocset(r, []string{"kgroups", "compact"}[i%2])
+				c := mixedDocset(r, []string{"kgroups", "compact"}[(i+i/6)%2])
 				ops := []int{0}
 				switch i % 6 {
 				case 2: // the published index is empty: BuildIndex before any document
@@ -170,6 +170,18 @@ func init() {
 						c.Docs[j].Cons = append(c.Docs[j].Cons, eConj{{F: 0, Inc: true, V: TV{T: "other:struct"}}})
 					}
 					ops = []int{0, 1, 2}
+				case 1: // every conjunction of the published generation has exactly two include fields: the size groups
+					// below stay empty in the published index; the next generation fills them
+					c.Docs = []eDoc{
+						{ID: 1, Cons: []eConj{{{F: 0, Inc: true, V: tvSlice("[]int", tvInt("int", 1), tvInt("int", 2))}, {F: 4, Inc: true, V: tvSlice("[]int", tvInt("int", 1))}}}},
+						{ID: 2, Cons: []eConj{{{F: 0, Inc: true, V: tvSlice("[]int", tvInt("int", 3))}, {F: 4, Inc: true, V: tvSlice("[]int", tvInt("int", 1), tvInt("int", 2))}, {F: 0, Inc: false, V: tvInt("int", 9)}}}},
+					}
+					c.Configs, c.Parsers = nil, nil
+					c.Queries = nil
+					for _, a := range [][2]int64{{1, 1}, {3, 2}, {2, 2}, {5, 1}, {1, 9}, {3, 1}, {0, 1}, {6, 2}} {
+						c.Queries = append(c.Queries, eQuery{A: []eAssign{{F: 0, V: tvInt("int", a[0])}, {F: 4, V: tvInt("int", a[1])}}}, eQuery{A: []eAssign{{F: 0, V: tvInt("int", a[0])}}})
+					}
+					ops = []int{0, 4, 1, 2}
 				case 5: // the published generation ends with a one-expression conjunction on field 0 and the next
 					// generation starts with one (anything the builder remembers about "the previous expression"
 					// then points into the published index)
